@@ -79,3 +79,110 @@ Example C11_rule_examples :
   c11_ok SQLITE true [MkCol (L "c") (Some (L "t")) None false; MkCol (L "d") (Some (L "u")) (Some (L "ua")) false] []
          (L "SELECT ""c"" FROM ""t"" JOIN ""u"" ""ua"" ON ""t"".""c""=""u"".""d""") = Some false.
 Proof. vm_compute. repeat split. Qed.
+
+(* ------------------------------------------------------------------------------------------------------------------------------------ *)
+(* EVERY statement of the model (any class, sources, joins, clauses; any context handed down): the qualification decision of the whole
+   statement is ns q, and the select list, FROM list, the filter clauses, GROUP BY and ORDER BY write every column reference - any number of
+   them - qualified exactly when ns q holds or the column's row source carries an alias, by the name the source is referred by *)
+From PT Require Import Proofs.QueryEq.
+
+(* how a column `name` of row source r is written when the statement's qualification decision is b *)
+Definition ref (qc : str) (b : bool) (r : tref) (name : str) : str :=
+  if b || str_truthy (tr_alias r) then fquote qc (qualifier r) ++ [46] ++ fquote qc name else fquote qc name.
+Definition colref (n : str) (r : tref) : term := TField n (Some r) None.
+
+Lemma render_col : forall c p n r,
+  render c p (colref n r) = Ok (alias_if (with_alias c) c (ref (quote_char c) (with_namespace c) r n) None, p).
+Proof. intros c p n r. cbn [render colref]. unfold ref. destruct (with_namespace c || str_truthy (tr_alias r)); reflexivity. Qed.
+Lemma alias_if_none b c s : alias_if b c s None = s.
+Proof. destruct b; reflexivity. Qed.
+
+(* the context of the clauses of statement q when the caller hands down c0 *)
+Definition cc (q : query) (c0 : ctx) : ctx := clause_ctx q (adjust_ctx q c0).
+
+Lemma cc_flags : forall q c0 b1 b2,
+  with_namespace (set_with_alias b1 (set_subquery b2 (cc q c0))) = ns q /\
+  quote_char (set_with_alias b1 (set_subquery b2 (cc q c0))) = quote_char c0.
+Proof. intros q c0 b1 b2. unfold cc, clause_ctx, adjust_ctx. destruct (q_cls q), c0; repeat split; reflexivity. Qed.
+Lemma cc_flags1 : forall q c0 b2,
+  with_namespace (set_subquery b2 (cc q c0)) = ns q /\ quote_char (set_subquery b2 (cc q c0)) = quote_char c0.
+Proof. intros q c0 b2. unfold cc, clause_ctx, adjust_ctx. destruct (q_cls q), c0; repeat split; reflexivity. Qed.
+
+Fixpoint cols_ts (l : list (str * tref)) : terms := match l with [] => TNil | (n, r) :: l' => TCons (colref n r) (cols_ts l') end.
+Fixpoint cols_gb (l : list (str * tref)) : gbys := match l with [] => GNil | (n, r) :: l' => GCons (colref n r) NoT (cols_gb l') end.
+Fixpoint cols_ob (l : list (str * tref * option order)) : obys :=
+  match l with [] => ONil | (n, r, o) :: l' => OCons (colref n r) o (cols_ob l') end.
+
+Lemma render_ts_cols : forall l c p,
+  render_ts c p (cols_ts l) = Ok (map (fun x => ref (quote_char c) (with_namespace c) (snd x) (fst x)) l, p).
+Proof.
+  induction l as [|[n r] l IH]; intros c p; [reflexivity|].
+  cbn [cols_ts render_ts]. rewrite render_col, alias_if_none. rewrite IH. reflexivity.
+Qed.
+Lemma render_gbys_cols : forall l c p,
+  render_gbys c p (cols_gb l) = Ok (map (fun x => ref (quote_char c) (with_namespace c) (snd x) (fst x)) l, p).
+Proof.
+  induction l as [|[n r] l IH]; intros c p; [reflexivity|].
+  cbn [cols_gb render_gbys]. rewrite render_col, alias_if_none. rewrite IH. reflexivity.
+Qed.
+Lemma render_obys_cols : forall l c sel p,
+  render_obys c sel true p (cols_ob l) =
+  Ok (map (fun x => let s := ref (quote_char c) (with_namespace c) (snd (fst x)) (fst (fst x)) in
+                    match snd x with Some d => s ++ [32] ++ order_sql d | None => s end) l, p).
+Proof.
+  induction l as [|[[n r] o] l IH]; intros c sel p; [reflexivity|].
+  cbn [cols_ob render_obys term_alias colref alias_selected]. rewrite andb_false_r.
+  change (TField n (Some r) None) with (colref n r). rewrite render_col, alias_if_none. rewrite IH. reflexivity.
+Qed.
+
+Theorem C11_statement_namespace : forall (q : query) (c0 : ctx),
+  with_namespace (cc q c0) = ns q /\
+  ns q = has_joins q || from_len_gt1 (q_from q) || from0_is_query (q_from q) || q_foreign_table q || (has_upd q && is_nonempty_terms (q_from q)).
+Proof. intros q c0. split; [unfold cc, clause_ctx, adjust_ctx; destruct (q_cls q), c0; reflexivity | reflexivity]. Qed.
+
+(* the select list and the FROM list of EVERY statement *)
+Theorem C11_select_list_columns : forall (q : query) (c0 : ctx) (p : pz) l,
+  r_ts the_rens (set_with_alias true (set_subquery true (cc q c0))) p (cols_ts l) =
+  Ok (map (fun x => ref (quote_char c0) (ns q) (snd x) (fst x)) l, p).
+Proof. intros. cbn [r_ts the_rens]. rewrite render_ts_cols. destruct (cc_flags q c0 true true) as [-> ->]. reflexivity. Qed.
+
+(* the filter clauses (WHERE, PREWHERE, HAVING, ON CONFLICT .. WHERE) of EVERY statement: a comparison of two columns *)
+Theorem C11_filter_clause_columns : forall (q : query) (c0 : ctx) (p : pz) e n1 r1 n2 r2,
+  r_o the_rens (set_subquery true (cc q c0)) p (SomeT (TBasic (CEq e) (colref n1 r1) (colref n2 r2) None)) =
+  Ok (Some (ref (quote_char c0) (ns q) r1 n1 ++ equality_sql e ++ ref (quote_char c0) (ns q) r2 n2), p).
+Proof.
+  intros. cbn [r_o the_rens render_o].
+  change (render (set_subquery true (cc q c0)) p (TBasic (CEq e) (colref n1 r1) (colref n2 r2) None)) with
+    (do (sl, p1) <- render (set_with_alias false (set_subquery true (cc q c0))) p (colref n1 r1);
+     do (sr, p2) <- render (set_with_alias false (set_subquery true (cc q c0))) p1 (colref n2 r2);
+     Ok (alias_if (with_alias (set_subquery true (cc q c0))) (set_subquery true (cc q c0)) (sl ++ cmp_sql (CEq e) ++ sr) None, p2)).
+  rewrite !render_col, !alias_if_none. destruct (cc_flags q c0 false true) as [-> ->]. cbv beta iota. reflexivity.
+Qed.
+
+Theorem C11_where_columns : forall (q : query) (c0 : ctx) (p : pz) e n1 r1 n2 r2,
+  q_wheres q = SomeT (TBasic (CEq e) (colref n1 r1) (colref n2 r2) None) ->
+  where_sql the_rens q (cc q c0) p =
+    Ok (L " WHERE " ++ ref (quote_char c0) (ns q) r1 n1 ++ equality_sql e ++ ref (quote_char c0) (ns q) r2 n2, p).
+Proof. intros q c0 p e n1 r1 n2 r2 H. unfold where_sql. rewrite H, C11_filter_clause_columns. reflexivity. Qed.
+
+(* GROUP BY and ORDER BY of EVERY statement, any number of columns *)
+Theorem C11_groupby_columns : forall (q : query) (c0 : ctx) (p : pz) l,
+  r_gbys the_rens (set_subquery true (cc q c0)) p (cols_gb l) = Ok (map (fun x => ref (quote_char c0) (ns q) (snd x) (fst x)) l, p).
+Proof. intros. cbn [r_gbys the_rens]. rewrite render_gbys_cols. destruct (cc_flags1 q c0 true) as [-> ->]. reflexivity. Qed.
+
+Theorem C11_orderby_columns : forall (q : query) (c0 : ctx) (p : pz) l,
+  q_orderbys q = cols_ob l -> l <> [] ->
+  orderby_sql the_rens q (cc q c0) p =
+  Ok (L " ORDER BY " ++ join [44] (map (fun x => let s := ref (quote_char c0) (ns q) (snd (fst x)) (fst (fst x)) in
+                                                 match snd x with Some d => s ++ [32] ++ order_sql d | None => s end) l), p).
+Proof.
+  intros q c0 p l H Hl. unfold orderby_sql, orderby_sql_c. rewrite H. destruct l as [|[[n r] o] l]; [congruence|].
+  cbn [cols_ob]. cbn [r_obys the_rens]. change (OCons (colref n r) o (cols_ob l)) with (cols_ob ((n, r, o) :: l)).
+  rewrite render_obys_cols. destruct (cc_flags1 q c0 true) as [-> ->]. reflexivity.
+Qed.
+Print Assumptions C11_statement_namespace.
+Print Assumptions C11_select_list_columns.
+Print Assumptions C11_filter_clause_columns.
+Print Assumptions C11_where_columns.
+Print Assumptions C11_groupby_columns.
+Print Assumptions C11_orderby_columns.
